@@ -379,8 +379,10 @@ pub fn family(opts: &FamOpts) -> Vec<CaseSpec> {
 /// always-accepted all-massive graphs covering every (D, L) cell: L-fold bananas and flowers with weight D
 pub fn dl_grid_cases() -> Vec<CaseSpec> {
     let mut res = vec![];
-    for d in 1..=6usize {
-        for l in 1..=5usize {
+    // D = 1..6 with 1..5 loops; D = 7..11 (beyond one and two 4-lane blocks, D % 4 == 3, the dimensions of string / M theory)
+    // with 1..3 loops
+    for d in [1usize, 2, 3, 4, 5, 6, 7, 8, 9, 10, 11] {
+        for l in 1..=(if d <= 6 { 5usize } else { 3 }) {
             for (name, topo) in [("banana", banana(l)), ("flower", flower(l))] {
                 let ne = topo.len();
                 let ext: Vec<u8> = if name == "banana" { vec![0, 1] } else { vec![] };
